@@ -253,6 +253,7 @@ func (x *vc) copyIn(st *state, a Val) (Val, func()) {
 // applyContract: check requires, havoc assigns, assume ensures
 func (x *vc) applyContract(fr *frame, st *state, fc *funcContract, callee *ssa.Function, sig *types.Signature, args []Val, names []string, pos, what string, resT types.Type) Val {
 	var copyOuts []func()
+	callGuard := st.guard
 	for i := range args {
 		a, out := x.copyIn(st, args[i])
 		args[i] = a
@@ -408,6 +409,10 @@ func (x *vc) applyContract(fr *frame, st *state, fc *funcContract, callee *ssa.F
 		k := x.callResOrd[what]
 		x.callResOrd[what] = k + 1
 		x.callRes[fmt.Sprintf("%s#%d", what, k)] = res
+		if x.callGuard == nil {
+			x.callGuard = map[string]string{}
+		}
+		x.callGuard[fmt.Sprintf("%s#%d", what, k)] = callGuard
 	}
 	return res
 }
